@@ -104,6 +104,21 @@ def interrupted(fn, n, exc_type=RecursionError):
         COL.counters['library_lines_run_under_fault_injection'] += _st['seen']
 
 
+def count_lines(fn):
+    """Run ``fn()`` to its end and return the number of library lines it executed (None if unavailable)."""
+    if not _st['ready']:
+        return None
+    mon = sys.monitoring
+    _st.update(armed=True, countdown=1 << 60, exc=RecursionError, seen=0)
+    mon.set_events(TOOL, mon.events.LINE)
+    try:
+        fn()
+    finally:
+        _st['armed'] = False
+        mon.set_events(TOOL, 0)
+    return _st['seen']
+
+
 def _depth():
     f, n = sys._getframe(1), 0
     while f is not None:
